@@ -156,7 +156,7 @@ func (fr *Frame) doCallInner(st *State, instr ssa.Value, c *ssa.CallCommon, pos 
 		spec = fc.w.specs.Funcs[fn.Object().Pkg().Name()+"."+strings.TrimPrefix(key, fn.Object().Pkg().Name()+".")]
 	}
 	if spec != nil && spec.Inline && fn != nil && len(fn.Blocks) > 0 && fr.depth < maxInlineDepth {
-		return fr.inlineCall(st, fn, spec, args, nil, pos)
+		return fr.inlineCall(st, fn, spec, args, fr.closures[c.Value], pos)
 	}
 	if spec != nil {
 		return fr.contractCall(st, key, spec, fn, sig, args, argTypes, c, pos)
@@ -567,6 +567,14 @@ func (fr *Frame) builtin(st *State, b *ssa.Builtin, c *ssa.CallCommon, pos token
 		pre := st.clone()
 		fc.bulkCopy(st, pre, et, slArr(dst), slOff(dst), slArr(src), slOff(src), n)
 		return []Term{n}
+	case "Slice":
+		// unsafe.Slice(p, n): the n elements starting at *p, which is an element of an array
+		p, n := args[0], args[1]
+		fc.w.assumed["unsafe.Slice(p, n): p points to an element of an array with at least n elements from there on (not checked)"] = true
+		nilp := mk(fmt.Sprintf("(is_PNull %s)", p.S), SBool, nil)
+		sl := mkSlice(mk(fmt.Sprintf("(ite %s PNull (pe_arr %s))", nilp.S, p.S), SPtr, nil), mk(fmt.Sprintf("(ite %s 0 (pe_idx %s))", nilp.S, p.S), SInt, nil), mk(fmt.Sprintf("(ite %s 0 %s)", nilp.S, n.S), SInt, nil), mk(fmt.Sprintf("(ite %s 0 %s)", nilp.S, n.S), SInt, nil), c.Signature().Results().At(0).Type())
+		fr.safety(st, "unsafe", mk(fmt.Sprintf("(or (not %s) (= %s 0))", nilp.S, n.S), SBool, nil), pos, "unsafe.Slice of nil pointer with non-zero length")
+		return []Term{fc.define("usl", sl)}
 	case "min", "max":
 		r := args[0]
 		op := "<="
@@ -844,6 +852,12 @@ func (fc *FnCtx) instrWrites(in ssa.Instruction, promoted map[*ssa.Alloc]bool, o
 		mt := x.Map.Type().Underlying().(*types.Map)
 		d, v, _, _ := fc.compMap(mt)
 		out[d], out[v], out["MN_"+mapID(mt)] = true, true, true
+	case *ssa.Next:
+		if r, ok := x.Iter.(*ssa.Range); ok && !x.IsString && !fc.frameMode {
+			if _, isMap := r.X.Type().Underlying().(*types.Map); isMap {
+				out[compRangeIter] = true // the hidden iteration counter of a range-over-map loop
+			}
+		}
 	case ssa.CallInstruction:
 		if _, isGo := in.(*ssa.Go); isGo {
 			return false
